@@ -133,6 +133,32 @@ func checkWalkOn(root parser.Node, pruneIdx []int) string {
 	if len(pruned.order) > len(full.order) {
 		return "pruned run visits more nodes than the full run"
 	}
+	// A visitor may leave a traversal early by panicking (and recovering in
+	// its caller): that must not influence later traversals.
+	stopAt := ((pruneIdx[0] % len(full.order)) + len(full.order)) % len(full.order)
+	func() {
+		defer func() { recover() }()
+		k := 0
+		parser.Walk(root, func(n parser.Node) bool {
+			if k == stopAt {
+				panic("visitor leaves the traversal")
+			}
+			k++
+			return true
+		})
+	}()
+	again := runWalk(root, nil)
+	if again.pan != "" {
+		return "Walk panics after an earlier traversal was abandoned: " + again.pan
+	}
+	if len(again.order) != len(full.order) {
+		return fmt.Sprintf("after an earlier traversal was abandoned by its visitor, Walk visits %d nodes instead of %d", len(again.order), len(full.order))
+	}
+	for i := range again.order {
+		if again.order[i] != full.order[i] {
+			return fmt.Sprintf("after an earlier traversal was abandoned by its visitor, visit %d is a %T instead of a %T", i, again.order[i], full.order[i])
+		}
+	}
 	return ""
 }
 
